@@ -195,7 +195,7 @@ class Impl:
         for r in out["results"]:
             if r.get("setup_err") or len(r["runs"]) != 2:
                 return None, "harness could not set up case %d: %s" % (r["id"], r.get("setup_err"))
-            res.append([{"err": x["err"], "panic": x["panic"], "tree": tree_from_json(x["tree"] or [])} for x in r["runs"]])
+            res.append([{"err": x["err"], "panic": x["panic"], "log_blocked": x.get("log_blocked", False), "tree": tree_from_json(x["tree"] or [])} for x in r["runs"]])
         return res, None
 
 
@@ -745,6 +745,10 @@ class Checker:
         for i, x in enumerate(r):
             if x["panic"]:
                 out.append(("panic", "updateHIDIConfiguration panicked (call %d) on a %s: %s" % (i + 1, where, x["panic"]), False))
+            if x.get("log_blocked"):
+                out.append(("hang", "updateHIDIConfiguration (call %d) on a %s queued more log messages than the logger's channel holds (128) and blocked: in "
+                            "main() nothing reads that channel before the upkeep has finished, so the start-up hangs with the tree left as it was at "
+                            "that point" % (i + 1, where), False))
         if not ev["untouched"]:
             out.append(("C18_user_untouched monitor",
                         "start-up upkeep touched something it must not on a %s: %s" % (where, diff_summary(tmpl, c["before"], r[0]["tree"])), False))
